@@ -262,52 +262,18 @@ def _factors(e):
 
 
 def r3(ctx):
+    """Decided on values (rules/_c19_r3.py): `_get_peak_dt` is evaluated by
+    the finite-domain evaluator on model reactors with symbolic temperatures;
+    the arguments of `calculate_temps` / `_read_hcf_table` in `analyze` are
+    expanded over the CFG (reaching definitions)."""
+    from . import _c19_r3 as V
     repo = ctx.repo
     gp = repo.func('hotspot', '_get_peak_dt')
-    h1 = find_all('tmp = [r_obj.inlet_temp]', gp.node, 'stmt')
-    h2 = find_all("tmp.append(a._peak['cool'][0])", gp.node)
-    h3 = find_all("tmp += a._peak['pin'][value][2][3:idx[value]]", gp.node,
-                  'stmt')
-    ok = bool(h1 and h2 and h3)
-    if ok:
-        g2 = [(src(t), p) for t, p in U.guards(h2[0][0])]
-        g3 = [(src(t), p) for t, p in U.guards(h3[0][0])]
-        ok = ("value == 'coolant'", True) in g2 and \
-            ("value == 'coolant'", False) in g3 and \
-            ('a.name == asm_name', True) in g2
-    ctx.require(ok, 'C19.R3', gp, h3[0][0] if h3 else gp.node,
-                'temperatures = [inlet] + peak coolant, or [inlet] + the '
-                'profile stored with the peak of the requested key '
-                '(columns 3 .. idx)', key=gp.full + ' | temperatures')
-    hd = find_all('dt = t[:, 1:] - t[:, :-1]', gp.node, 'stmt')
-    ctx.require(bool(hd), 'C19.R3', gp, hd[0][0] if hd else gp.node,
-                'rises are successive differences (outer minus inner)',
-                key=gp.full + ' | differences')
-    an = repo.func('hotspot', 'analyze')
-    hc = find_all('subf[typ] = subf[typ][:, :, :dT.shape[1]]', an.node, 'stmt')
+    V.peak_rises(ctx, gp, PIN_COL)
     # (which rises `dT` holds is decided on values by C19.R8,
     # rules/_f_c19.py: the whole result of _get_peak_dt(r_obj, asm_name, k))
-    # (keyword arguments are normalised to positional by the loader)
-    hs = find_all("calculate_temps(r_obj.inlet_temp, dT, subf, "
-                  "hs[k]['input_sigma'], hs[k]['output_sigma'])", an.node)
-    ctx.require(bool(hc and hs), 'C19.R3', an,
-                hs[0][0] if hs else an.node,
-                'analysis must use the rises of the same key, crop the '
-                'subfactors to the rise count and pass the input/output '
-                'sigma in their own slots', key=an.full + ' | wiring')
-    hr = find_all("_read_hcf_table(hs[k]['subfactors'], _COLS_NEEDED[k])",
-                  an.node)
-    ctx.require(bool(hr), 'C19.R3', an, hr[0][0] if hr else an.node,
-                'subfactor table read with the column count of the same key',
-                key=an.full + ' | table of key')
-    for n in walk_no_nested(gp.node):
-        if isinstance(n, ast.Assert) and "'pin' in a._peak" in src(n):
-            gs = [(src(t), p) for t, p in U.guards(n)]
-            ctx.require(("value == 'coolant'", False) in gs, 'C19.R3', gp, n,
-                        'a pin model is asserted even for the coolant '
-                        'hot-spot calculation, which _setup_postprocess '
-                        'allows without one: the run ends in AssertionError',
-                        key=gp.full + ' | pin assert only for pin locations')
+    an = repo.func('hotspot', 'analyze')
+    V.wiring(ctx, an, repo.func('hotspot', 'calculate_temps'))
 
 
 # ---------------------------------------------------------------------------
